@@ -10,6 +10,9 @@ import TetlProofs.C06.Reverse
 import TetlProofs.C06.Bound
 import TetlProofs.C06.TwoRange
 import TetlProofs.C06.Fill
+import TetlProofs.C06.Merge
+import TetlProofs.C06.StablePartition
+import TetlProofs.C06.Numeric
 namespace Tetl.C06.Props
 open Tetl Tetl.C06
 variable {α : Type}
@@ -446,5 +449,61 @@ theorem swapRanges_eq (P R S Q T U : List α) (h : R.length = T.length) :
   rw [Nat.add_sub_cancel_left]
   exact swapRangesLoop_spec S U _ _ _ _ R T P Q h (Nat.le_refl _) (Nat.le_refl _) (Nat.le_refl _) (Nat.le_refl _)
 example : [1, 2].length = [3, 4].length := by decide
+
+/-! ## merge / stable_partition -/
+
+/-- `merge` writes the stable merge of the two ranges (ties: first range first) and reads only inside them -/
+theorem merge_eq (lt : α → α → Bool) (P R S Q T U : List α) :
+    merge lt (P ++ R ++ S) P.length (P.length + R.length) (Q ++ T ++ U) Q.length (Q.length + T.length)
+      = .ok (Spec.merge lt R T) := by
+  have := mergeLoop_spec lt P R S Q T U (R.length + T.length + 1) 0 0 (Nat.zero_le _) (Nat.zero_le _) (by omega)
+  unfold merge
+  rw [Nat.add_sub_cancel_left, Nat.add_sub_cancel_left]
+  simpa using this
+
+/-- `stable_partition` (recursive halves + rotate): `filter p ++ filter ¬p`, returns the partition point,
+    terminates, touches nothing outside the range -/
+theorem stablePartition_eq (p : α → Bool) (P R S : List α) :
+    stablePartition p (P ++ R ++ S) P.length (P.length + R.length)
+      = .ok (P ++ (Spec.stablePartition p R).1 ++ S, P.length + (Spec.stablePartition p R).2) := by
+  unfold stablePartition
+  rw [Nat.add_sub_cancel_left, stablePartitionF_spec p (R.length + 1) R P S (by omega)]
+  simp [Spec.stablePartition, List.countP_eq_length_filter]
+
+/-! ## inner_product / transform_reduce (binary) / adjacent_difference -/
+
+/-- precondition: the second range has at least `last1 - first1` elements -/
+theorem innerProduct_eq {β : Type} (op1 : β → β → β) (op2 : α → α → β) (init : β) (P R S Q T U : List α)
+    (h : R.length ≤ T.length) :
+    innerProduct op1 op2 init (P ++ R ++ S) P.length (P.length + R.length) (Q ++ T ++ U) Q.length (Q.length + T.length)
+      = .ok (Spec.innerProduct op1 op2 init R T) := by
+  have := innerLoop_spec op1 op2 P R S Q T U R.length 0 init (by simp) h
+  unfold innerProduct
+  rw [Nat.add_sub_cancel_left]
+  simpa [Spec.innerProduct] using this
+example : [1, 2].length ≤ [1, 3, 4].length := by decide
+
+theorem transformReduce2_eq {β : Type} (op1 : β → β → β) (op2 : α → α → β) (init : β) (P R S Q T U : List α)
+    (h : R.length ≤ T.length) :
+    transformReduce2 op1 op2 init (P ++ R ++ S) P.length (P.length + R.length) (Q ++ T ++ U) Q.length (Q.length + T.length)
+      = .ok (Spec.innerProduct op1 op2 init R T) :=
+  innerProduct_eq op1 op2 init P R S Q T U h
+example : [1, 2].length ≤ [1, 3, 4].length := by decide
+
+theorem adjacentDifference_eq (op : α → α → α) (P R S : List α) :
+    adjacentDifference op (P ++ R ++ S) P.length (P.length + R.length) = .ok (Spec.adjacentDifference op R) := by
+  unfold adjacentDifference
+  match R with
+  | [] => simp [Spec.adjacentDifference]
+  | x :: xs =>
+    have h0 : (P.length == P.length + (x :: xs).length) = false := by
+      rw [beq_eq_false_iff_ne]; simp
+    have hrd := rdR_ctx P (x :: xs) S 0 (by simp)
+    have hloop := adjDiffLoop_spec op P (x :: xs) S xs.length 0 (by simp) (by simp; omega)
+    simp only [Nat.add_zero, List.getElem_cons_zero, Nat.zero_add, List.drop_zero, List.drop_succ_cons] at hrd hloop
+    rw [h0]
+    simp only [Bool.false_eq_true, if_false]
+    rw [hrd, ok_bind, show P.length + (x :: xs).length - P.length - 1 = xs.length from by simp, hloop]
+    rfl
 
 end Tetl.C06.Props
